@@ -150,15 +150,26 @@ Fixpoint lookup_syntax (s : text) (l : list (text * text)) : option text :=
   | (k, v) :: r => if text_eqb s k then Some v else lookup_syntax s r
   end.
 
+(* first branch of the Expression printer's cond: a dotted identifier *)
+Definition expr_dotted (ms : list model) : bool :=
+  let x0 := nth 0 ms (MNode KExpr []) in
+  let x1 := nth 1 ms (MNode KExpr []) in
+  Nat.leb 3 (length ms) && forallb is_sym ms
+  && (sym_is x0 [ch_dot] || (sym_is x1 s_None && all_dots_text (sym_text x0))).
+
+(* second branch: a two-element form whose head is a key of the syntax dict *)
+Definition expr_sugar (ms : list model) : option text :=
+  let x0 := nth 0 ms (MNode KExpr []) in
+  if Nat.eqb (length ms) 2 && is_sym x0 then lookup_syntax (sym_text x0) repr_syntax else None.
+
 Definition expr_repr (ms : list model) (rs : list text) : text :=
   let x0 := nth 0 ms (MNode KExpr []) in
   let x1 := nth 1 ms (MNode KExpr []) in
   let x1_none := sym_is x1 s_None in
-  if Nat.leb 3 (length ms) && forallb is_sym ms
-     && (sym_is x0 [ch_dot] || (x1_none && all_dots_text (sym_text x0)))
+  if expr_dotted ms
   then (if x1_none then sym_text x0 else []) ++ intersperse [ch_dot] (skipn (if x1_none then 2 else 1) rs)
   else
-    match (if Nat.eqb (length ms) 2 && is_sym x0 then lookup_syntax (sym_text x0) repr_syntax else None) with
+    match expr_sugar ms with
     | Some prefix =>
         if sym_is x0 s_unquote && is_sym x1 && starts_with [c_at] (sym_text x1)
         then [c_tilde; ch_space] ++ nth 1 rs []
